@@ -369,6 +369,8 @@ def show(e):
             return "(%s^%d)" % (show(e.args[0]), e.args[1])
         if e.op == "pi":
             return "pi"
+        if e.op.startswith("app:"):
+            return "%s(%s)" % (e.op[4:], ",".join(show(a) for a in e.args))
         if e.op in ("sqrt", "cos", "acos", "sin", "abs"):
             return "%s(%s)" % (e.op, show(e.args[0]))
         if e.op in ("max", "min", "atan2", "rpow"):
@@ -391,6 +393,16 @@ def showc(c, d=True):
 
 class EvalError(Exception):
     pass
+
+
+def APP_EVAL(name, args, mode, record):
+    """evaluation of a call to another generated definition (set by harness.tv)"""
+    raise EvalError("no evaluator for generated definition " + name)
+
+
+def app(name, *args):
+    """symbolic call of another generated (scalar-valued) definition"""
+    return Sym("app:" + name, *[Sym.lift(a) for a in args])
 
 
 def _isqrt_frac(x, digits=40):
@@ -460,6 +472,8 @@ def evaluate(e, env, mode="ideal", funcs=None, memo=None, record=None):
                 r = a / b
         elif op == "pi":
             r = Fraction(math.pi)
+        elif op.startswith("app:"):
+            r = APP_EVAL(op[4:], [go(a) for a in x.args], mode, record)
         elif op in ("sqrt", "cos", "sin", "acos"):
             r = call(op, go(x.args[0]))
         elif op in ("atan2", "rpow"):
